@@ -77,3 +77,15 @@ MUTANTS += [
     dict(property='C02', name='odeint gets the column-derivative flag', file=OUF, old="col_deriv=False,", new="col_deriv=True,"),
     dict(property='C02', name='jacobian_T does not swap arguments', file=DETF, old="        return self.jacobian(state, t)\n\n    def _Jacobian_NoCheck", new="        return self.jacobian(t, state)\n\n    def _Jacobian_NoCheck"),
 ]
+BASEF = 'pygom/model/base_ode_model.py'
+MUTANTS += [
+    dict(property='C01', name='get_ode_eqn: death adds instead of subtracts', file=DETF, old="                    birth_death_ode[origin_index] -= rate_of_change", new="                    birth_death_ode[origin_index] += rate_of_change"),
+    dict(property='C01', name='get_ode_eqn: transition ignores the magnitude', file=DETF, old="                rate_of_change=magnitude*rate\n                if transition.transition_type==TransitionType.B:\n                    destination_index=self.state_list.index(transition.destination)\n                    birth_death_ode[destination_index] += rate_of_change", new="                rate_of_change=magnitude*rate\n                if transition.transition_type==TransitionType.T:\n                    rate_of_change=rate\n                if transition.transition_type==TransitionType.B:\n                    destination_index=self.state_list.index(transition.destination)\n                    birth_death_ode[destination_index] += rate_of_change"),
+    dict(property='C01', name='get_ode_eqn: destination gets nothing for T', file=DETF, old="                    between_state_ode[destination_index] += rate_of_change\n", new="                    between_state_ode[destination_index] += 0\n"),
+    dict(property='C01', name='get_ode_eqn: explicit ODE term overwrites instead of adds', file=DETF, old="            pure_ode[origin_index] += checkEquation(ode.equation, *self._getListOfVariablesDict())\n\n        # Collect", new="            pure_ode[origin_index] = checkEquation(ode.equation, *self._getListOfVariablesDict())\n\n        # Collect"),
+    dict(property='C01', name='get_ode_eqn: pure terms dropped from the sum', file=DETF, old="        self._ode = between_state_ode + birth_death_ode + pure_ode", new="        self._ode = between_state_ode + birth_death_ode"),
+    dict(property='C01', name='vMat: birth uses magnitude 1', file=BASEF, old="                    self._vMat[destination_index, event_index] += magnitude\n                elif transition.transition_type==TransitionType.D:", new="                    self._vMat[destination_index, event_index] += 1\n                elif transition.transition_type==TransitionType.D:"),
+    dict(property='C01', name='vMat: transposed store for T origin', file=BASEF, old="                    self._vMat[origin_index, event_index] -= magnitude\n                    self._vMat[destination_index, event_index] += magnitude", new="                    self._vMat[event_index, origin_index] -= magnitude\n                    self._vMat[destination_index, event_index] += magnitude"),
+    dict(property='C01', name='rate vector: every entry is the first rate', file=BASEF, old="            self._eventRateVector[i]=checkEquation(event.rate, *self._getListOfVariablesDict())", new="            self._eventRateVector[i]=checkEquation(self.event_list[0].rate, *self._getListOfVariablesDict())"),
+    dict(property='C01', name='pureOdeVector: indexes by loop position', file=BASEF, old="        for ode in self.ode_list:\n            origin_index=self.state_list.index(ode.origin)\n            pure_ode[origin_index] += checkEquation(ode.equation, *self._getListOfVariablesDict())\n\n        self._pureOdeVector=pure_ode", new="        for n_ode, ode in enumerate(self.ode_list):\n            origin_index=n_ode\n            pure_ode[origin_index] += checkEquation(ode.equation, *self._getListOfVariablesDict())\n\n        self._pureOdeVector=pure_ode"),
+]
